@@ -94,34 +94,37 @@ type Node struct {
 	height  map[refmodel.Hash]int32 // hash -> height on the best chain (genesis -> 0)
 	Cap     int                     // max headers per reply
 	// scripting knobs
-	DisconnectAtMsg   int    // close the FIRST connection when its n-th message arrives (0 = never)
-	LoseFirstN        int    // DisconnectAtMsg / CloseAfterVersion apply to the first n connections instead of the first only (0 = 1)
-	RestartOnDrop     bool   // the scripted loss of a connection (DisconnectAtMsg, DropAfterHeight) takes all of the node's open connections with it: the node restarts
-	refusedDials      int    // dials the rig refused on the node's behalf (MaxLive, MaxAccepts)
-	HangUpAfterMarked bool   // the node closes the connection right after writing the answer that contains MarkHash (hit and run)
-	ProtoVer          uint32 // protocol version the node reports in its version message (0 = 70013); below 70012 the service cannot ask for header announcements
-	UnknownFirst      bool   // right after the handshake the node sends a message with a command the service does not know (real nodes do)
-	PushOnHandshake   bool   // the unsolicited pushes (PushAfterReply, PushSeq) go out as soon as the handshake is complete instead of after the first getheaders answer
-	VersionTwice      bool   // on the first connection(s) the node answers the service's version with its own version message twice (and no verack)
-	CloseAfterVersion bool   // the FIRST connection is lost in the middle of the handshake: the node sends its version message and never a verack
-	IgnoreStop        bool   // getheaders answers do not end at the stop hash ("all that remain or at most Cap")
-	SilentFirst       bool   // the FIRST connection never answers getheaders; later ones do
-	RepentAfterHeight int    // after the first getheaders answer that contains this height the node switches to RepentChain (it follows the honest chain from then on)
-	RepentChain       []refmodel.Hdr
-	MarkHash          refmodel.Hash // a getheaders answer that contains the header with this hash is logged with " [marked]"
-	VersionLag        int           // the version message reports a height this many blocks below the node's chain (blocks found since)
-	InvBatch          int           // inv announcements list the last InvBatch blocks (0/1: the tip only)
-	DropAfterHeight   int           // close the connection right after sending the first getheaders answer that contains this height (0 = never)
-	droppedAfter      bool
-	StallAfterMsg     int              // on every connection: stop answering getheaders after the n-th message (0 = never)
-	MaxAccepts        int              // stop accepting after n connections (0 = unlimited)
-	MaxLive           int              // at most n simultaneously open connections; further dials are refused by the rig (0 = unlimited)
-	Silent            bool             // never answers getheaders (pure stall)
-	PushAfterReply    *wire.MsgHeaders // unsolicited headers message pushed right after the first getheaders answer of every connection
-	PushInfo          string
-	PushSeq           []*wire.MsgHeaders // further unsolicited headers messages pushed after PushAfterReply, one after the other
-	PushSeqInfo       []string
-	Services          wire.ServiceFlag
+	DisconnectAtMsg   int  // close the FIRST connection when its n-th message arrives (0 = never)
+	LoseFirstN        int  // DisconnectAtMsg / CloseAfterVersion apply to the first n connections instead of the first only (0 = 1)
+	RestartOnDrop     bool // the scripted loss of a connection (DisconnectAtMsg, DropAfterHeight) takes all of the node's open connections with it: the node restarts
+	refusedDials      int  // dials the rig refused on the node's behalf (MaxLive, MaxAccepts)
+	HangUpAfterMarked bool // the node closes the connection right after writing the answer that contains MarkHash (hit and run)
+	// when the connection that delivered MarkHash ends, every other connection of the node is closed as well (the host
+	// goes away and comes back: nothing of it stays connected, so the service's connection manager dials it again)
+	OthersGoWithOffender bool
+	ProtoVer             uint32 // protocol version the node reports in its version message (0 = 70013); below 70012 the service cannot ask for header announcements
+	UnknownFirst         bool   // right after the handshake the node sends a message with a command the service does not know (real nodes do)
+	PushOnHandshake      bool   // the unsolicited pushes (PushAfterReply, PushSeq) go out as soon as the handshake is complete instead of after the first getheaders answer
+	VersionTwice         bool   // on the first connection(s) the node answers the service's version with its own version message twice (and no verack)
+	CloseAfterVersion    bool   // the FIRST connection is lost in the middle of the handshake: the node sends its version message and never a verack
+	IgnoreStop           bool   // getheaders answers do not end at the stop hash ("all that remain or at most Cap")
+	SilentFirst          bool   // the FIRST connection never answers getheaders; later ones do
+	RepentAfterHeight    int    // after the first getheaders answer that contains this height the node switches to RepentChain (it follows the honest chain from then on)
+	RepentChain          []refmodel.Hdr
+	MarkHash             refmodel.Hash // a getheaders answer that contains the header with this hash is logged with " [marked]"
+	VersionLag           int           // the version message reports a height this many blocks below the node's chain (blocks found since)
+	InvBatch             int           // inv announcements list the last InvBatch blocks (0/1: the tip only)
+	DropAfterHeight      int           // close the connection right after sending the first getheaders answer that contains this height (0 = never)
+	droppedAfter         bool
+	StallAfterMsg        int              // on every connection: stop answering getheaders after the n-th message (0 = never)
+	MaxAccepts           int              // stop accepting after n connections (0 = unlimited)
+	MaxLive              int              // at most n simultaneously open connections; further dials are refused by the rig (0 = unlimited)
+	Silent               bool             // never answers getheaders (pure stall)
+	PushAfterReply       *wire.MsgHeaders // unsolicited headers message pushed right after the first getheaders answer of every connection
+	PushInfo             string
+	PushSeq              []*wire.MsgHeaders // further unsolicited headers messages pushed after PushAfterReply, one after the other
+	PushSeqInfo          []string
+	Services             wire.ServiceFlag
 	// state
 	ln       net.Listener
 	conns    []*Conn
@@ -144,6 +147,7 @@ type Conn struct {
 	unknownSent int32
 	versionIn   int32
 	dead        int32
+	sentMarked  int32
 	pushed      int32
 	peerKnown   int32 // highest height of the node's chain the service is known to have
 	lastStart   int32 // range of the last getheaders answer (read loop only)
@@ -381,12 +385,13 @@ func (c *Conn) MsgsIn() int { return int(atomic.LoadInt32(&c.msgsIn)) }
 func (c *Conn) Close(why string) {
 	if atomic.CompareAndSwapInt32(&c.dead, 0, 1) {
 		_ = c.c.Close()
+		// logged before the slot is given back: a connection accepted into that slot then has a later sequence number
+		c.node.Log.add(Event{Node: c.node.Name, Conn: c.ID, Dir: "close", Cmd: why})
 		if !c.dialed {
 			c.node.mu.Lock()
 			c.node.reserved--
 			c.node.mu.Unlock()
 		}
-		c.node.Log.add(Event{Node: c.node.Name, Conn: c.ID, Dir: "close", Cmd: why})
 	}
 }
 
@@ -430,6 +435,18 @@ func (c *Conn) versionMsg() *wire.MsgVersion {
 
 func (c *Conn) loop() {
 	n := c.node
+	defer func() {
+		n.mu.Lock()
+		others := n.OthersGoWithOffender && atomic.LoadInt32(&c.sentMarked) != 0
+		n.mu.Unlock()
+		if others {
+			for _, o := range n.Open() {
+				if o != c {
+					o.Close("scripted: the host's other connections go away with the offender's")
+				}
+			}
+		}
+	}()
 	defer c.Close("read loop ended")
 	if c.dialed {
 		if err := c.write(c.versionMsg(), ""); err != nil {
@@ -606,6 +623,7 @@ func (c *Conn) answerGetHeaders(m *wire.MsgGetHeaders) error {
 	}
 	err := c.write(reply, fmt.Sprintf("%d headers %d..%d%s", len(reply.Headers), start+1, end, marked))
 	if err == nil && marked != "" {
+		atomic.StoreInt32(&c.sentMarked, 1)
 		n.mu.Lock()
 		hang := n.HangUpAfterMarked
 		n.mu.Unlock()
